@@ -1,7 +1,7 @@
 """Driver logic of ./check (see that file for the contract)."""
 import fcntl
 import hashlib
-import json
+import json, re
 import os
 import shutil
 import signal
@@ -119,6 +119,19 @@ class Ctx:
             if allow_fail:
                 return {"_rc": p.returncode, "_stderr": p.stderr[-4000:], "_stdout": p.stdout[-4000:]}
             self.inconclusive.append("harness step %s exited with %s: %s" % (tag, p.returncode, p.stderr[-600:]))
+            # Properties about total functions (reference equality on every valid input): the workload hands the code
+            # under test valid inputs only, so a panic raised *inside the repository's sources* that kills the
+            # harness is a counterexample (the function has no value there), not a machinery failure. For all other
+            # properties a dying harness stays inconclusive.
+            mo = re.search(r"\[vh\] harness panic: (.*) at (/repo/(?:rln|utils)/src/[^\s:]+)", p.stderr)
+            if p.returncode == 101 and mo and self.prop in TOTAL_FUNCTION_PROPS:
+                f = mo.group(2).split("/src/", 1)[1]
+                r = {"evaluations": 0, "strata_all": [], "samples": [], "inconclusive": {}, "counters": {}, "notes": {},
+                     "violations": [{"sig": "sut-panic-on-valid-input:%s" % f, "count": 1,
+                                     "details": [{"panic": mo.group(1)[:400], "at": mo.group(2), "step": tag,
+                                                  "note": "the harness process died in an unguarded call of the code under test; the rest of the workload was not executed"}]}],
+                     "_step": tag, "_secs": round(time.time() - t, 1)}
+                self.results.append(r)
             return None
         r = json.load(open(out))
         r["_step"] = tag
@@ -285,6 +298,9 @@ class BuildFailed(Exception):
     def __init__(self, config, san, log):
         self.config, self.san, self.log = config, san, log
         super().__init__("build failed for %s/%s" % (config, san))
+
+
+TOTAL_FUNCTION_PROPS = {"C03", "C04", "C05", "C09", "C10", "C14", "C19", "C20"}
 
 
 def load_known(verif):
